@@ -152,6 +152,19 @@ pub fn text_char(algo: EncAlgo, utf16: bool, kind: u8, x: u32) -> u32 {
     }
 }
 
+/// one generated token: usually one character, sometimes an ASCII run whose length straddles the
+/// 16-unit strides of the encoders' ASCII fast paths
+pub fn text_token(algo: EncAlgo, utf16: bool, kind: u8, x: u32, out: &mut Vec<u32>) {
+    if kind % 10 == 8 && (x >> 8) % 3 != 0 {
+        let n = crate::gen::ASCII_RUN_LENS[pick(x, crate::gen::ASCII_RUN_LENS.len())];
+        for i in 0..n {
+            out.push(0x20 + ((x >> 16) + i as u32 * 7) % 0x5F);
+        }
+    } else {
+        out.push(text_char(algo, utf16, kind, x));
+    }
+}
+
 pub fn history(enc: &'static Encoding, prof: EProfile) -> impl Strategy<Value = EncHistory> {
     let algo = enc_algo_for(enc);
     let raw = (
@@ -164,7 +177,10 @@ pub fn history(enc: &'static Encoding, prof: EProfile) -> impl Strategy<Value = 
     raw.prop_map(move |r: Raw| {
         let (chars, cutf, capx, (s, k, fill, align), (repl, last_on_empty, utf16)) = r;
         let src = if utf16 { Src::Utf16 } else { Src::Utf8 };
-        let mut text: Vec<u32> = chars.iter().map(|(kind, x)| text_char(algo, utf16, *kind, *x)).collect();
+        let mut text: Vec<u32> = Vec::new();
+        for (kind, x) in &chars {
+            text_token(algo, utf16, *kind, *x, &mut text);
+        }
         if prof.mappable_only {
             for c in text.iter_mut() {
                 if crate::drive_enc::is_sur(*c) || !crate::model_enc::mappable(algo, *c) {
